@@ -26,9 +26,9 @@ def jobs(tier):
             if n == 1:
                 sm, vm, st = smax, vmax, stmax
             elif n == 2:
-                sm, vm, st = (4, 4, 2) if q else (6, 7, 3)
+                sm, vm, st = (4, 4, 2) if q else (5, 5, 2)
             else:
-                sm, vm, st = (3, 3, 1) if q else (4, 5, 2)
+                sm, vm, st = (3, 3, 1) if q else (3, 4, 2)
             params = [("size", "int"), ("idx", "int")]
             pre = [f"1 <= size <= {sm}", f"0 <= idx <= {vm}"]
             for k in range(n):
